@@ -37,6 +37,12 @@ PROPS = {
     "C04": dict(world="synapse_world", level="exploration",
                 quick=dict(runs=8000, wall=300, chunk=100), thorough=dict(runs=300000, wall=1800, chunk=1000),
                 assumptions=COMMON_ASSUME + ["selectors within a float32 rounding margin of a grid point / tolerance boundary accept either the on-grid or the interpolated value (counted by a probe)"]),
+    "C05": dict(world="connection_world", level="exploration",
+                quick=dict(runs=6000, wall=300, chunk=100), thorough=dict(runs=200000, wall=1800, chunk=1000),
+                assumptions=COMMON_ASSUME + ["the linear-map clause is a pure function: the simulator only feeds it history-generated state and a per-run geometry swarm (DESIGN 5.5 caveat); tolerance 3e-5 + 3e-4|b|"]),
+    "C06": dict(world="connection_world", level="exploration",
+                quick=dict(runs=6000, wall=300, chunk=100), thorough=dict(runs=200000, wall=1800, chunk=1000),
+                assumptions=COMMON_ASSUME + ["delays are k*dt computed in float32 as a user would; nearest-interpolated delays within 2% of the half step are not judged"]),
     "C07": dict(world="reducer_world", level="exploration",
                 quick=dict(runs=20000, wall=240, chunk=500), thorough=dict(runs=800000, wall=1500, chunk=4000),
                 assumptions=COMMON_ASSUME + ["continuous values compared with |a-b| <= 2e-5 + 2e-4|b|; view times within max(4 tol, 0.05 dt) of the grid but outside tol are not judged"]),
